@@ -17,10 +17,53 @@ class Ast:
         self.vars = d["vars"]
         self.policies = {p["name"]: set(p["bases"]) for p in d.get("policies", [])}
         self.root = d.get("root")
+        for f in self.funcs:
+            if f.get("body") is not None:
+                normalise(f["body"])
 
     def find(self, pattern):
         rx = re.compile(pattern)
         return [f for f in self.funcs if rx.search(f["name"])]
+
+
+def _is_const_expr(n):
+    n = strip(n)
+    return n is not None and (n.get("k") in ("IntegerLiteral", "CXXNullPtrLiteralExpr", "GNUNullExpr", "CXXBoolLiteralExpr", "CharacterLiteral") or
+                              ("cv" in n and n.get("k") not in ("DeclRefExpr", "MemberExpr", "CallExpr", "CXXMemberCallExpr", "CXXOperatorCallExpr")))
+
+
+def _lit(n, v):
+    n = strip(n)
+    return n is not None and ((n.get("k") == "IntegerLiteral" and n.get("v") == v) or (n.get("cv") == v and _is_const_expr(n)))
+
+
+def normalise(root):
+    """in-place normal form of spelling variants, so that rules see one shape:
+       x += 1, x = x + 1, x = 1 + x  ->  ++x   (x -= 1, x = x - 1 -> --x)
+       c < x (constant on the left)   ->  x > c   (all comparison operators)
+       a > b, a >= b (no constant)    ->  b < a, b <= a"""
+    FLIP = {"<": ">", ">": "<", "<=": ">=", ">=": "<=", "==": "==", "!=": "!="}
+    for n in list(walk(root)):
+        k = n.get("k")
+        c = n.get("c") or []
+        if k == "CompoundAssignOperator" and n.get("op") in ("+=", "-=") and len(c) == 2 and _lit(c[1], 1):
+            n["k"], n["op"], n["postfix"], n["c"] = "UnaryOperator", ("++" if n["op"] == "+=" else "--"), False, [c[0]]
+        elif k == "CXXOperatorCallExpr" and n.get("oop") in ("+=", "-=") and len(c) == 3 and _lit(c[2], 1):
+            n["oop"], n["c"] = ("++" if n["oop"] == "+=" else "--"), c[:2]      # iterator advanced by one
+        elif k == "BinaryOperator" and n.get("op") == "=" and len(c) == 2:
+            r = strip(c[1])
+            if r is not None and r.get("k") == "BinaryOperator" and r.get("op") in ("+", "-") and len(r.get("c") or []) == 2:
+                a, b = r["c"]
+                lt = text(c[0])
+                if _lit(b, 1) and text(a) == lt and strip(c[0]).get("k") in ("DeclRefExpr", "MemberExpr"):
+                    n["k"], n["op"], n["postfix"], n["c"] = "UnaryOperator", ("++" if r["op"] == "+" else "--"), False, [c[0]]
+                elif r["op"] == "+" and _lit(a, 1) and text(b) == lt and strip(c[0]).get("k") in ("DeclRefExpr", "MemberExpr"):
+                    n["k"], n["op"], n["postfix"], n["c"] = "UnaryOperator", "++", False, [c[0]]
+        elif k == "BinaryOperator" and n.get("op") in FLIP and len(c) == 2:
+            lc, rc = _is_const_expr(c[0]), _is_const_expr(c[1])
+            if (lc and not rc) or (not lc and not rc and n["op"] in (">", ">=")):
+                n["c"] = [c[1], c[0]]
+                n["op"] = FLIP[n["op"]]
 
 
 def kids(n):
